@@ -29,6 +29,14 @@ def driver (lines : List String) : List String :=
         | some v => some (toString v.toBits)
         | none => some "err:name"
       | _, _ => some "err:parse"
+    | ["evalb", name, rc, r] =>
+      -- arguments as IEEE-754 bit patterns (exactly the doubles the real functions get)
+      match rc.toNat?, r.toNat? with
+      | some a, some b =>
+        match Sympler.Gen.KernelsFloat.eval name (Float.ofBits (UInt64.ofNat a)) (Float.ofBits (UInt64.ofNat b)) with
+        | some v => some (toString v.toBits)
+        | none => some "err:name"
+      | _, _ => some "err:parse"
     | ["names"] => some (String.intercalate " " Sympler.Gen.KernelsFloat.names)
     | [] => none
     | _ => some "err:parse"
